@@ -1,6 +1,7 @@
 package refmodel
 
 import (
+	"fmt"
 	"math"
 	"sort"
 	"strconv"
@@ -503,6 +504,33 @@ func cmdExpire(m *Model, d *DB, conn int, a [][]byte, now time.Time) Reply {
 	if xx && !e.HasTTL {
 		return integer(0)
 	}
+	apply := func() {
+		if sec <= 0 {
+			delete(d.Keys, key)
+			return
+		}
+		e.expireIn(now, time.Duration(sec)*time.Second)
+	}
+	if (gt || lt) && e.HasTTL {
+		diff := newExact.Sub(e.Exact)
+		if diff < 0 {
+			diff = -diff
+		}
+		if diff < time.Second {
+			// at one-second clock granularity the two deadlines may compare
+			// either way (or equal): both outcomes are accepted
+			return Reply{Desc: ":1 (deadline replaced) | :0 (kept)", Check: func(got rd.Value) (bool, string) {
+				if got.Kind == rd.Integer && got.Int == 1 {
+					apply()
+					return true, ""
+				}
+				if got.Kind == rd.Integer && got.Int == 0 {
+					return true, ""
+				}
+				return false, "expected :1 or :0, got " + describe(got)
+			}}
+		}
+	}
 	if gt && (!e.HasTTL || !newExact.After(e.Exact)) {
 		// a key without deadline counts as infinite TTL
 		return integer(0)
@@ -510,11 +538,7 @@ func cmdExpire(m *Model, d *DB, conn int, a [][]byte, now time.Time) Reply {
 	if lt && e.HasTTL && !newExact.Before(e.Exact) {
 		return integer(0)
 	}
-	if sec <= 0 {
-		delete(d.Keys, key)
-		return integer(1)
-	}
-	e.expireIn(now, time.Duration(sec)*time.Second)
+	apply()
 	return integer(1)
 }
 
@@ -541,10 +565,13 @@ func cmdTTL(m *Model, d *DB, conn int, a [][]byte, now time.Time) Reply {
 	if !e.HasTTL {
 		return integer(-1)
 	}
-	rem := e.Exact.Sub(now).Seconds()
-	desc := "integer within one second of " + strconv.FormatFloat(rem, 'f', 3, 64)
+	// the reported seconds must fit some expiry instant of the key's window, to
+	// within the clock's one-second granularity
+	lo := e.WinLo.Sub(now).Seconds() - 1
+	hi := e.WinHi.Sub(now).Seconds() + 1
+	desc := fmt.Sprintf("integer in [%.3f, %.3f] (remaining time to live)", math.Max(lo, 0), hi)
 	return Reply{Desc: desc, Check: func(got rd.Value) (bool, string) {
-		if got.Kind == rd.Integer && got.Int >= 0 && math.Abs(float64(got.Int)-rem) <= 1.0 {
+		if got.Kind == rd.Integer && got.Int >= 0 && float64(got.Int) >= lo && float64(got.Int) <= hi {
 			return true, ""
 		}
 		return false, "expected " + desc + ", got " + describe(got)
